@@ -155,3 +155,20 @@ Fixpoint displays (t : nat) (st : stmt) : bool :=
                       match p with [] => false | x :: r => displays t x || any r end) body
   end.
 Definition displays_any (t : nat) (p : list stmt) : bool := existsb (displays t) p.
+
+(* ---- sessions --------------------------------------------------------------------------- *)
+(* a copy is a new tag with the same children; following the code, it also inherits whether
+   the original has been entered (the saved hook is copied with it) *)
+Definition s_copy (src dst : nat) (x : sstate) : sstate :=
+  mkS (fun u => if Nat.eqb u dst then used x src else used x u)
+      (fun u => if Nat.eqb u dst then kids x src else kids x u)
+      (slog x).
+
+Fixpoint sem_top (r : recv) (l : list top) (x : sstate) : sstate * outcome :=
+  match l with
+  | [] => (x, Normal)
+  | TStmt st :: q =>
+    let (x', o) := sem_stmt r st x in
+    match o with Normal => sem_top r q x' | _ => (x', o) end
+  | TCopy src dst :: q => sem_top r q (s_copy src dst x)
+  end.
